@@ -113,7 +113,7 @@ class Unit:
     def __init__(self, id, fn, pre=None, post=None, replace=(), cfg='abacus', backends=('sat',), timeout=120,
                  tier='quick', cxx=None, note='', split=False, loop_contracts=None, ghost=None, extra_flags=(),
                  lemma=False, requires_extra=(), ensures_extra=(), no_canary=False, ub_only=False, unwind=None,
-                 object_bits=None, defines=(), link_src=False, expect_props=(), engine='bv', prelude='', replace_raw=(), needs=(), bounded=None, native_post=None, assigns_extra=(), cut_check=None, role_binder=None, role_fn=None, ignore_desc=None, pre_consts=(), split_returns=False, post_split=()):
+                 object_bits=None, defines=(), link_src=False, expect_props=(), engine='bv', prelude='', replace_raw=(), needs=(), bounded=None, native_post=None, assigns_extra=(), cut_check=None, role_binder=None, role_fn=None, ignore_desc=None, pre_consts=(), split_returns=False, post_split=(), soft=False):
         self.engine = engine
         self.ignore_desc = ignore_desc
         self.role_fn = role_fn
@@ -121,6 +121,7 @@ class Unit:
         self.assigns_extra = list(assigns_extra)
         self.cut_check = cut_check
         self.native_post = native_post
+        self.soft = soft            # undecided obligations of this unit are reported (NOT-PROVED, counted as not discharged) without making the check undecided: a labelled scan of the same run covers the clause
         self.post_split = tuple(post_split)     # INT units with split_returns: the conjuncts of `post`, proved separately
         self.split_returns = split_returns      # INT units: one postcondition obligation per return statement
         self.pre_consts = tuple(pre_consts)     # INT units: integer literals appended to the precondition's arguments (slice selectors)
